@@ -1041,7 +1041,10 @@ class _CxIfPathSegmentPattern(_CxParent):
 
     def src(self, indentation: int) -> str:
         lines = [
-            '{0}match = patterns[{1}].match(path[{2}])  # {3}'.format(
+            # NOTE: the pattern is only a comment in the generated source; it
+            #   is rendered with repr(), so that no character in it (such as
+            #   NUL) can break the source.
+            '{0}match = patterns[{1}].match(path[{2}])  # {3!r}'.format(
                 _TAB_STR * indentation,
                 self._pattern_idx,
                 self._segment_idx,
